@@ -11,8 +11,9 @@ for the WAIT fragment of `Props/Refine2.lean` minus `dropRx`: the lock fragment 
    (twin: the `Synchronize` of the sender side is cumulative, each message carries a snapshot of it in
    `receiverSync`, acquired by `recvEffect`; reference: `chanRel`, the clock paired with the message);
 2. `nNotify`, `nWait` (with its one modelled spurious return, which acquires nothing on both sides) — the edge from
-   `notify` to the `wait` it lets return (twin: `sync_store` / `sync_load` on the `Notify`'s `Synchronize`, and
-   `Notify::notify` lets a thread that is already waiting join the notifier's causality AT ONCE; reference: `nRel`);
+   `notify` to the `wait` it lets return (twin: `sync_store` / `sync_load` on the `Notify`'s `Synchronize` — the
+   waiter acquires when it returns from `wait`; `Notify::notify` itself only wakes, it hands no clock to anybody:
+   repair of finding F26, `Notify.notify_acquires_nothing` in `Props/C08.lean`; reference: `nRel`);
 3. `park`, `unpark` — the edge from `unpark` to the `park` that consumes it (twin: `unparkCaus`, handed over by
    `acquire_unpark` when the `park` consumes a stored unpark or is woken by one; reference: `tokenVC`);
 4. the condvar: `cvWait` (two reference steps), `cvOne`, `cvAll` — the edge from the notifier to the waiter (twin:
@@ -23,7 +24,8 @@ Technique: the relation `Race2.RC2 w s` extends `Refine2.R2` by two clock system
 "slots" are now the mutexes, the `Notify` objects, the channels and the `park` tokens, plus the clocks of the
 messages in flight (side clocks, `Proofs/Race2Clocks.lean`); the twin-side system is a GHOST: its thread clocks
 acquire when the reference step happens, while loom's `causality` may have acquired ahead of time (a thread waiting in
-`Notify::wait` / `park` / `join` joins the causality of the thread that wakes it at the wake-up, before it runs):
+`park` / `Condvar::wait` joins the causality of the thread that wakes it at the wake-up, before it runs; a thread
+waiting in `Notify::wait` / `join` no longer does):
 `LinkT2` sandwiches loom's causality between the ghost clock and the ghost clock joined with the clock the waiting
 operation is about to acquire (`pendClk`).
 
@@ -32,20 +34,21 @@ Hypotheses, all explicit and decidable / computable:
   message, acquiring each message's clock, while the reference acquires them all in the one step that drops the
   receiver; the bookkeeping of the drained prefix is not done);
 * `prog.threads.length ≤ 5`; `Refine2.FreshExec2 exec`;
-* `Race2.okRun2 fuel w0 = true` (computable by running the twin): at every step of the run `Refine2.resumeOk` (as in
-  `Props/Refine2.lean`) and `Race2.staleOk` hold.  `staleOk w`: when the active thread is about to run the EFFECT of
-  `Notify::notify` on `Notify` `n`, every other thread whose pending operation names that object is waiting in
-  `nWait n` (stage 1).  It cannot be dropped — FINDING, `Race2.Finding.missed_race` below.  `Notify::notify` gives the
-  notifier's causality to EVERY other thread whose pending operation names the `Notify`; a thread that sits between
-  the branch point and the effect of its own `notify()` on the same object is such a thread: it is taken for a
-  waiter and acquires the clock of the thread whose `notify()` takes effect in between, although `notify()` acquires
-  nothing.  Its later accesses are then ordered, in loom's clocks, after that thread's earlier accesses: a data race
-  that the reference reports is NOT reported on that path (the run completes without a panic).
+* `Refine2.okRun fuel w0 = true` (computable by running the twin): at every step of the run `Refine2.resumeOk`, exactly
+  as in `Props/Refine2.lean` — nothing more.  REPAIRED finding F26: for the unrepaired model these theorems needed a
+  second run-level condition, `staleOk` ("when the effect of `Notify::notify` on `n` is about to run, every other
+  thread whose pending operation names `n` is waiting in `nWait n`"), and were false without it (old
+  `Race2.Finding.missed_race`): `Notify::notify` gave the notifier's causality to EVERY other thread whose pending
+  operation names the `Notify`, also to a thread between the branch point and the effect of its own `notify()` on the
+  same object, whose later accesses were then ordered, in loom's clocks, after the first notifier's earlier accesses —
+  a data race that the reference reports was not reported on that path.  `Notify::notify` now only wakes; the
+  hypothesis is gone (the old `okRun2` / `okIter2` have collapsed to `Refine2.okRun` / `Refine2.okIter`), and the very program and path of
+  the old finding now end with the report: `Race2.Repaired.two_notifiers_race_reported`.
 
 Headlines: `Race2.twin_panics_iff_reference_races`, `Race2.only_cell_accesses_panic_with_causality`,
 `Race2.step_simulation_with_clocks`, `Race2.initially_related`, `Race2.reported_race_is_real`,
-`Race2.no_missed_race_on_this_path`, their `runIter` forms, the examples `Race2.Example.*` and the finding
-`Race2.Finding.missed_race`.
+`Race2.no_missed_race_on_this_path`, their `runIter` forms, the examples `Race2.Example.*` and the repaired
+finding `Race2.Repaired.two_notifiers_race_reported`.
 -/
 import LoomVerif.Proofs.Race2Run
 import LoomVerif.Props.Refine2
@@ -88,21 +91,21 @@ theorem only_cell_accesses_panic_with_causality {w : World} {s : SC.St} (hwf : W
 
 /-! ## 2. the relation is an invariant -/
 
-/-- **One-step simulation with clocks**: a successful stage of the active thread, under `resumeOk` and `staleOk`,
+/-- **One-step simulation with clocks**: a successful stage of the active thread, under `resumeOk`,
 leads to a world related to the same reference state (stuttering), or to a world related to THE successor `s'` of a
 step of `SC.step` of the body the thread runs (of a thread that is `SC.enabled`) or of the spurious return of its
 `nWait` (`SC.spurious`); `RC2 w' s'` contains `s'.verdict = none`: the reference does not see a race where the
 twin does not. -/
 theorem step_simulation_with_clocks {w w' : World} {s : SC.St} (hwf : WF3 w.prog) (hRC : RC2 w s)
     (hact : w.tid < w.ctl.length) (hactive : w.ths.isActive = true) (hok : resumeOk w = true)
-    (hst : staleOk w = true) (h : w.stepActive = .ok w') :
+    (h : w.stepActive = .ok w') :
     w'.prog = w.prog ∧
     ((RC2 w' s ∧ w'.events = w.events) ∨
      ∃ s', ((SC.enabled w.prog s (body w w.tid) = true ∧ s' ∈ SC.step w.prog s (body w w.tid)) ∨
           s' ∈ SC.spurious w.prog s (body w w.tid)) ∧ RC2 w' s' ∧
        ∃ l, RefStep w.prog (data2 s) (body w w.tid) l (data2 s') ∧
          w'.events.map triple = SCData.label (body w w.tid) l ++ w.events.map triple) :=
-  step_clock2 hwf hRC hact hactive hok hst h
+  step_clock2 hwf hRC hact hactive hok h
 
 /-- the relation holds initially -/
 theorem initially_related {prog : Prog} {exec : Exec} {w0 : World} (hwf : WF3 prog)
@@ -115,7 +118,7 @@ theorem RC2.related {w : World} {s : SC.St} (h : RC2 w s) : R2 w (data2 s) := h.
 
 /-! ## 3. runs -/
 
-/-- **A reported race is real**: a run of the twin (satisfying `okRun2`) that ends with the panic `causality k`
+/-- **A reported race is real**: a run of the twin (satisfying `Refine2.okRun`) that ends with the panic `causality k`
 corresponds to an execution of the reference semantics that ends with the verdict `race k`: there is an execution
 `SC.init prog →* s` of `Spec/SC.lean` (every step a step of an enabled thread or a spurious return of `nWait`) whose
 data is related to the world `w` in which the panicking stage started and whose trace of results is the event log
@@ -123,7 +126,7 @@ of the twin, and the next step of the body `t` of the thread that panicked — e
 `[(s.tick t).stop (.race k)]`. -/
 theorem reported_race_is_real {prog : Prog} {exec : Exec} {w0 w : World} {fuel k : Nat}
     (hwf : WF3 prog) (hnt : prog.threads.length ≤ 5) (hfresh : FreshExec2 exec)
-    (hinit : World.init prog exec = .ok w0) (hok : okRun2 fuel w0 = true)
+    (hinit : World.init prog exec = .ok w0) (hok : okRun fuel w0 = true)
     (hrun : World.runLoop fuel w0 = (w, some (.causality k))) :
     ∃ s t, SCExec2 prog (SC.init prog) s ∧ RC2 w s ∧
       SCData2.Run2 prog (data2 (SC.init prog)) (w.events.reverse.map triple) (data2 s) ∧
@@ -135,13 +138,13 @@ theorem reported_race_is_real {prog : Prog} {exec : Exec} {w0 w : World} {fuel k
   obtain ⟨s, t, hex, hRC', hrun', _, hen, hst⟩ := this
   exact ⟨s, t, hex, hRC', hrun', hen, hst, .step hex hen (by rw [hst]; exact List.mem_singleton.2 rfl)⟩
 
-/-- **No race is missed on this path**: a run of the twin (satisfying `okRun2`) that completes corresponds to a
+/-- **No race is missed on this path**: a run of the twin (satisfying `Refine2.okRun`) that completes corresponds to a
 full execution of `Spec/SC.lean` — every step `SC.step` of a thread that is `SC.enabled`, or `SC.spurious` — that
 reaches no verdict: no step of it stops with a race.  (`Refine2.run_is_SC_execution` without its second disjunct
 "or a race verdict on a prefix".) -/
 theorem no_missed_race_on_this_path {prog : Prog} {exec : Exec} {w0 w : World} {fuel : Nat}
     (hwf : WF3 prog) (hnt : prog.threads.length ≤ 5) (hfresh : FreshExec2 exec)
-    (hinit : World.init prog exec = .ok w0) (hok : okRun2 fuel w0 = true)
+    (hinit : World.init prog exec = .ok w0) (hok : okRun fuel w0 = true)
     (hrun : World.runLoop fuel w0 = (w, none)) :
     ∃ s, SCExec2 prog (SC.init prog) s ∧ s.verdict = none ∧ R2 w (data2 s) ∧
       SCData2.Run2 prog (data2 (SC.init prog)) (w.events.reverse.map triple) (data2 s) ∧ RC2 w s := by
@@ -156,11 +159,11 @@ theorem no_missed_race_on_this_path {prog : Prog} {exec : Exec} {w0 w : World} {
 /-- a completed iteration: its events are the trace of a reference execution without race verdict -/
 theorem runIter_no_missed_race {prog : Prog} {exec : Exec} {fuel : Nat}
     (hwf : WF3 prog) (hnt : prog.threads.length ≤ 5) (hfresh : FreshExec2 exec)
-    (hok : okIter2 prog exec fuel = true) (hterm : (runIter prog exec fuel).term = none) :
+    (hok : okIter prog exec fuel = true) (hterm : (runIter prog exec fuel).term = none) :
     ∃ s, SCExec2 prog (SC.init prog) s ∧ s.verdict = none ∧
       SCData2.Run2 prog (data2 (SC.init prog)) ((runIter prog exec fuel).events.map triple) (data2 s) := by
   unfold runIter at hterm ⊢
-  unfold okIter2 at hok
+  unfold okIter at hok
   cases hi : World.init prog exec with
   | error e => rw [hi] at hterm; cases hterm
   | ok w0 =>
@@ -180,11 +183,11 @@ theorem runIter_no_missed_race {prog : Prog} {exec : Exec} {fuel : Nat}
 /-- an iteration that reports a race: there is a reference execution that ends with that race verdict -/
 theorem runIter_reported_race_is_real {prog : Prog} {exec : Exec} {fuel k : Nat}
     (hwf : WF3 prog) (hnt : prog.threads.length ≤ 5) (hfresh : FreshExec2 exec)
-    (hok : okIter2 prog exec fuel = true)
+    (hok : okIter prog exec fuel = true)
     (hterm : (runIter prog exec fuel).term = some (.causality k)) :
     ∃ s, SCExec2 prog (SC.init prog) s ∧ s.verdict = some (.race k) := by
   unfold runIter at hterm
-  unfold okIter2 at hok
+  unfold okIter at hok
   cases hinit : World.init prog exec with
   | error e => rw [hinit] at hok; cases hok
   | ok w0 =>
@@ -258,7 +261,7 @@ example : ∃ s, SCExec2 mp (SC.init mp) s ∧ s.verdict = none ∧
 
 /-- **the same with the cell written after the send races**, and the race is reported -/
 theorem mpLate_reported : (runIter mpLate (Check.initExec mpLate.cfg)).term = some (.causality 9) ∧
-    okIter2 mpLate (Check.initExec mpLate.cfg) = true := by decide +kernel
+    okIter mpLate (Check.initExec mpLate.cfg) = true := by decide +kernel
 
 /-- … and the theorem turns the report into a reference execution that ends with the verdict `race 9` -/
 example : ∃ s, SCExec2 mpLate (SC.init mpLate) s ∧ s.verdict = some (.race 9) :=
@@ -277,7 +280,7 @@ example : ∃ s, SCExec2 handOff (SC.init handOff) s ∧ s.verdict = none ∧
 
 /-- **an `unpark` without a consuming `park` does not order the accesses**: the race is reported -/
 theorem noPark_reported : (runIter noPark (Check.initExec noPark.cfg)).term = some (.causality 9) ∧
-    okIter2 noPark (Check.initExec noPark.cfg) = true := by decide +kernel
+    okIter noPark (Check.initExec noPark.cfg) = true := by decide +kernel
 
 example : ∃ s, SCExec2 noPark (SC.init noPark) s ∧ s.verdict = some (.race 9) :=
   runIter_reported_race_is_real (by decide +kernel) (by decide +kernel) (freshExec2_new _ _ _ _) noPark_reported.2
@@ -286,7 +289,7 @@ example : ∃ s, SCExec2 noPark (SC.init noPark) s ∧ s.verdict = some (.race 9
 /-- `Notify`: the first iteration (the wait is notified) is race-free, the second one (the wait returns spuriously:
 nothing is acquired, on either side) reports the race -/
 theorem ntf_runs : ((Check.run ntf 100).1.map fun it => it.result.term) = [none, some (.causality 9)] ∧
-    okIter2 ntf (iter ntf 0) = true ∧ okIter2 ntf (iter ntf 1) = true ∧ FreshExec2 (iter ntf 1) := by
+    okIter ntf (iter ntf 0) = true ∧ okIter ntf (iter ntf 1) = true ∧ FreshExec2 (iter ntf 1) := by
   refine ⟨by decide +kernel, by decide +kernel, by decide +kernel, by unfold FreshExec2; decide +kernel⟩
 
 example : ∃ s, SCExec2 ntf (SC.init ntf) s ∧ s.verdict = some (.race 9) :=
@@ -299,7 +302,7 @@ theorem cvp_never : (Check.run cvp 100).2 = .completed ∧
   decide +kernel
 
 /-- … e.g. the fourth one: by the theorem its events are the trace of a reference execution without verdict -/
-theorem cvp_run3 : (runIter cvp (iter cvp 3)).term = none ∧ okIter2 cvp (iter cvp 3) = true ∧
+theorem cvp_run3 : (runIter cvp (iter cvp 3)).term = none ∧ okIter cvp (iter cvp 3) = true ∧
     FreshExec2 (iter cvp 3) := by
   refine ⟨by decide +kernel, by decide +kernel, by unfold FreshExec2; decide +kernel⟩
 
@@ -309,9 +312,9 @@ example : ∃ s, SCExec2 cvp (SC.init cvp) s ∧ s.verdict = none ∧
 
 end Example
 
-/-! ## 5. FINDING: `staleOk` cannot be dropped -/
+/-! ## 5. REPAIRED finding F26: two notifiers of one `Notify` -/
 
-namespace Finding
+namespace Repaired
 
 /-- replay a list of thread choices in the reference semantics: every step a step of `SC.step` of a thread that is
 `SC.enabled` (and deterministic) -/
@@ -348,47 +351,52 @@ ITS `notify()`, then the main thread's effect, then thread 1 -/
 def exec : Exec :=
   { Check.initExec twoNotifiers.cfg with path := Refine2.Counter.pathOf [1, 0, 1, 1, 0] }
 
-/-- **FINDING (a data race is missed on this path).**  `twoNotifiers` is well-formed; along `exec` (a fresh thread
-table; the schedule above) the twin completes WITHOUT any panic, and the run satisfies the hypotheses of
-`Refine2.run_is_reference_execution` (`okIter`); thread 1 reads the value `5` the main thread wrote.  In the
-reference semantics the very same order of operations — main: `spawn`, `cellWrite`, `nNotify`; thread 1: `nNotify`,
-`cellRead` — is an execution that STOPS WITH THE VERDICT `race 9` at the `cellRead` of thread 1: `nNotify` acquires
-nothing, the write and the read are unordered.  In the twin (as in loom: `Notify::notify` gives the notifier's
-causality to every other thread whose pending operation names the `Notify`) thread 1, which sits between the branch
-point and the effect of its own `notify()`, acquires the main thread's clock when the main thread's `notify()` takes
-effect.  The run violates `staleOk` (`okIter2 = false`): the hypothesis of the theorems above that excludes it. -/
-theorem missed_race :
+/-- **REPAIRED finding F26 (the race that used to be missed on this path is reported).**  `twoNotifiers` is
+well-formed; `exec` is a fresh thread table with the schedule above, on which the unrepaired twin completed WITHOUT
+any panic (thread 1, sitting between the branch point and the effect of its own `notify()`, was taken for a waiter
+and acquired the main thread's clock when the main thread's `notify()` took effect; it then read the value `5`
+"in order").  Now `Notify::notify` hands no clock to anybody: along the same `exec` the twin ends with the panic
+`causality 9` at the `cellRead` of thread 1, after exactly the events main: `spawn`, `cellWrite`, `nNotify`; thread 1:
+`nNotify`; and the run satisfies the one run-level hypothesis of the theorems above (`okIter`).  In the reference
+semantics the very same order of operations is an execution that stops with the verdict `race 9` at the `cellRead`
+of thread 1 (`nNotify` acquires nothing, the write and the read are unordered): the two agree. -/
+theorem two_notifiers_race_reported :
     WF3 twoNotifiers ∧ FreshExec2 exec ∧
-    (runIter twoNotifiers exec).term = none ∧
+    (runIter twoNotifiers exec).term = some (.causality 9) ∧
     (runIter twoNotifiers exec).events.map triple =
-      [(0, 0, .unit), (0, 1, .unit), (0, 2, .unit), (1, 0, .unit), (1, 1, .val 5), (0, 3, .unit)] ∧
-    okIter twoNotifiers exec = true ∧ okIter2 twoNotifiers exec = false ∧
+      [(0, 0, .unit), (0, 1, .unit), (0, 2, .unit), (1, 0, .unit)] ∧
+    okIter twoNotifiers exec = true ∧
     (replay twoNotifiers [0, 0, 0, 1] (SC.init twoNotifiers)).map (·.verdict) = some none ∧
     (replay twoNotifiers [0, 0, 0, 1, 1] (SC.init twoNotifiers)).map (·.verdict) = some (some (.race 9)) := by
-  refine ⟨by decide +kernel, ⟨rfl, rfl⟩, by decide +kernel, by decide +kernel, by decide +kernel, by decide +kernel,
+  refine ⟨by decide +kernel, ⟨rfl, rfl⟩, by decide +kernel, by decide +kernel, by decide +kernel,
     by decide +kernel, by decide +kernel⟩
 
-/-- … as an execution of `Spec/SC.lean`: the twin's order of operations, replayed, is a reference execution that
-ends with the verdict `race 9` -/
-theorem missed_race_exec :
+/-- … the twin's order of operations, replayed, is a reference execution that ends with the verdict `race 9` -/
+theorem two_notifiers_reference_race :
     ∃ s, SCExec2 twoNotifiers (SC.init twoNotifiers) s ∧ s.verdict = some (.race 9) ∧
       replay twoNotifiers [0, 0, 0, 1, 1] (SC.init twoNotifiers) = some s := by
   cases h : replay twoNotifiers [0, 0, 0, 1, 1] (SC.init twoNotifiers) with
   | none =>
-    have := missed_race.2.2.2.2.2.2.2
+    have := two_notifiers_race_reported.2.2.2.2.2.2
     rw [h] at this; cases this
   | some s =>
     refine ⟨s, replay_exec _ _ _ _ (.nil _) h, ?_, rfl⟩
-    have := missed_race.2.2.2.2.2.2.2
+    have := two_notifiers_race_reported.2.2.2.2.2.2
     rw [h] at this
     simpa using this
 
-/-- the default exploration of the same program does report the race (in its first iteration): what is false is
-the per-path exactness, not (on this program) the verdict of the whole exploration -/
+/-- … and the headline theorem applies to this very run (no `staleOk` to check any more): the report is real -/
+theorem two_notifiers_report_is_real :
+    ∃ s, SCExec2 twoNotifiers (SC.init twoNotifiers) s ∧ s.verdict = some (.race 9) :=
+  runIter_reported_race_is_real two_notifiers_race_reported.1 (by decide +kernel) two_notifiers_race_reported.2.1
+    two_notifiers_race_reported.2.2.2.2.1 two_notifiers_race_reported.2.2.1
+
+/-- the default exploration of the same program reports the race in its first iteration (as it did before the
+repair) -/
 theorem default_exploration_reports :
     (Check.run twoNotifiers 100).2 = .panicked (.causality 9) := by decide +kernel
 
-end Finding
+end Repaired
 
 end Race2
 end LoomVerif
